@@ -45,13 +45,16 @@ CORPUS = [
     ('left-aligned-constant', ['Dr.', 'Dr. Jones', 'Dr. Smith']),
     ('left-aligned-prefix', ['ID:', 'ID:7', 'ID:42']),
     ('short-and-long', ['a-', 'b-1']),
+    # one character sequence shared by all examples, repeat counts differing, an extra letter inside it
+    ('shared-sequence-with-extra-letter', ['ab-c', 'abb-c', 'abbb-c']),
+    ('shared-sequence-with-dot', ['x.y', 'xx.y', 'x.yy']),
 ]
 
 OPTIONS = [
     ('plain', {}),
     ('tag', {'tag': True}),
     ('strip', {'strip': True}),
-    ('extra-letters', {'extra_letters': '_-'}),
+    ('extra-letters', {'extra_letters': '_-.'}),
     ('portable', {'dialect': 'portable'}),
     ('grep', {'dialect': 'grep'}),
 ]
@@ -127,7 +130,8 @@ def corpus_for(run):
                   'ends-in-dollar': ('plain',), 'unicode-letters': ('plain', 'portable', 'grep'), 'padded': ('plain', 'strip'),
                   'empty-and-blank': ('plain',), 'underscores': ('extra-letters',), 'repeats': ('plain',), 'tabs-newlines': ('plain',),
                   'right-aligned-constant': ('plain',), 'right-aligned-suffix': ('plain',), 'left-aligned-constant': ('plain',),
-                  'left-aligned-prefix': ('plain',), 'short-and-long': ('plain',)}
+                  'left-aligned-prefix': ('plain',), 'short-and-long': ('plain',),
+                  'shared-sequence-with-extra-letter': ('plain', 'extra-letters'), 'shared-sequence-with-dot': ('plain',)}
     return [(n, ex, on, o) for n, ex in CORPUS for on, o in OPTIONS if on in quick_opts.get(n, ())]
 
 
@@ -189,6 +193,15 @@ def run_rule(run, p, pid):
                 probs.append('an expression does not compile: %s' % e)
         elif pid == 'C13':
             subjects = [e.strip() for e in examples] if opts.get('strip') else list(examples)
+            if len(set(res)) != len(res):
+                probs.append('an expression is returned twice: %s' % res)
+            if len(res) > len(set(subjects)):
+                probs.append('%d expressions for %d distinct examples' % (len(res), len(set(subjects))))
+            if oname == 'plain':
+                # the same examples as a {string: count} dictionary with strings that occur zero times: those are not examples
+                zres, zerr = extract(p, dict(collections.Counter(examples), **{'zz-absent-99': 0, 'Q!': 0}))
+                if zres is None or sorted(zres) != sorted(res):
+                    probs.append('with zero-count dictionary entries %s, without %s' % (zres if zres is not None else zerr, res))
             for r in res:
                 try:
                     c = re.compile(r, flags)
